@@ -92,7 +92,7 @@ def is_overload_deco(d: ast.expr) -> bool:
 
 def enc_def(fd) -> list:
     return [enc_args(fd.args), opt(None if fd.returns is None else enc_expr(fd.returns)),
-            1 if any(is_overload_deco(d) for d in fd.decorator_list) else 0,
+            [1 if is_overload_deco(d) else 0 for d in fd.decorator_list],
             1 if isinstance(fd, ast.AsyncFunctionDef) else 0]
 
 
